@@ -260,6 +260,12 @@ func readLookupList(p *parser.Parser, pos int64, sr subtableReader) (LookupList,
 				if err != nil {
 					return nil, err
 				}
+				if _, nested := subtable.(*extensionSubtable); nested {
+					return nil, &parser.InvalidFontError{
+						SubSystem: "sfnt/opentype/gtab",
+						Reason:    "nested extension subtable",
+					}
+				}
 				subtables[j] = subtable
 			}
 		}
